@@ -345,3 +345,368 @@ Record behspec := { b_d : Z; b_dm : Z; b_ec : Z; b_m : mapper }.
 Definition beh_of (b : behspec) (req : Z) : nat * res :=
   (Z.to_nat ((b_d b + b_dm b * req) mod 3),
    if (0 <=? b_ec b) && (req mod 3 =? b_ec b) then Err (100 + req) else Ok (app_m (b_m b) req)).
+
+(* ============================================================================================ *)
+(* Factory level                                                                                *)
+(* ============================================================================================ *)
+(* Config values: None is the unit config `()`. *)
+Definition cfgv := option Z.
+Definition cfg_z (c : cfgv) : Z := match c with Some z => z | None => 0 end.
+
+Inductive ires := IOk (s : sexpr) | IErr (e : Z).          (* Result<Service, InitError> *)
+Inductive ipres := IPending | IReady (r : ires) | IPanic.
+
+(* a Transform of the harness: new_transform(svc) logs EvNewT, its future answers Pending t_k
+   times and then fails with t_fail or yields  Box<dyn>(apply_fn(svc, t_wf));  t_rc: applied
+   through the `Rc<T>` impl;  t_mie: through TransformExt::map_init_err *)
+Record tspec := { t_id : nat; t_k : nat; t_fail : option Z; t_wf : wrapfn; t_rc : bool; t_mie : option mapper }.
+
+(* the closure given to apply_cfg / apply_cfg_factory: logs EvCfgFn, its future answers Pending
+   c_k times, then fails with c_fail or yields  map(+cfg)(Rc clone of the service) *)
+Record cspec := { c_id : nat; c_k : nat; c_fail : option Z }.
+Definition cfg_build (c : cfgv) (s : sexpr) : sexpr := Map (MAdd (cfg_z c)) (Wrap WRc s).
+Definition cfg_out (cs : cspec) (c : cfgv) (s : sexpr) : ires :=
+  match c_fail cs with Some e => IErr e | None => IOk (cfg_build c s) end.
+
+Inductive lkind := LDirect | LFnFactory | LFnFactoryCfg.   (* hand-written factory / fn_factory / fn_factory_with_config *)
+Inductive fwrapk := FWBoxed | FWRc | FWArc.
+Inductive svcwrap := SWMap (m : mapper) | SWMapErr (m : mapper) | SWApplyFn (wf : wrapfn).
+Definition sw_app (sw : svcwrap) (s : sexpr) : sexpr :=
+  match sw with SWMap m => Map m s | SWMapErr m => MapErr m s | SWApplyFn wf => ApplyFn wf s end.
+
+Inductive fexpr :=
+| FLeafF (id : nat) (k : lkind) (beh : cfgv -> nat * ires)
+| FFnService (id : nat) (beh : Z -> nat * res)                 (* fn_service(f) as a factory *)
+| FAndThen (a b : fexpr)
+| FMapSvc (sw : svcwrap) (a : fexpr)                           (* .map / .map_err / apply_fn_factory *)
+| FMapInitErr (m : mapper) (a : fexpr)
+| FMapConfig (m : mapper) (a : fexpr)
+| FUnitConfig (a : fexpr)
+| FApplyCfg (s : sexpr) (cs : cspec)
+| FApplyCfgFactory (a : fexpr) (cs : cspec)
+| FApplyTransform (t : tspec) (a : fexpr)
+| FWrap (k : fwrapk) (a : fexpr).
+
+(* Option<F> inside a future: still there / taken / the future clones instead *)
+Inductive optst := OptSome | OptNone | NoOpt.
+
+Inductive ffut :=
+| FFLeaf (id : nat) (k : nat) (out : ires) (done : bool)       (* scripted: Pending^k then Ready(out) *)
+| FFReady (v : option ires)                                    (* crate::Ready *)
+| FFAnd (fa fb : ffut) (a b : option sexpr)                    (* AndThenServiceFactoryResponse *)
+| FFMapSvc (sw : svcwrap) (st : optst) (fut : ffut)            (* MapServiceFuture, MapErrServiceFuture, ApplyServiceFactoryResponse *)
+| FFMapInitErr (k : mkind) (m : mapper) (fut : ffut)           (* MapInitErrFuture, TransformMapInitErrFuture *)
+| FFBox (fut : ffut) (done : bool)                             (* the async block of boxed::FactoryWrapper *)
+| FFTrA (fut : ffut) (kt : sexpr -> ffut) (kev : sexpr -> list event)   (* ApplyTransformFuture::A + store.0.new_transform *)
+| FFTrB (fut : ffut)
+| FFCfgA (fut : ffut) (cfg : option cfgv) (kc : cfgv -> sexpr -> ffut) (kev : cfgv -> sexpr -> list event)
+| FFCfgB (svc : sexpr) (cfg : option cfgv) (kc : cfgv -> sexpr -> ffut) (kev : cfgv -> sexpr -> list event)
+| FFCfgC (fut : ffut).
+
+Definition map_ierr (k : mkind) (m : mapper) (r : ires) : ires * list event :=
+  match r with IErr e => (IErr (app_m m e), [EvMap k m e]) | _ => (r, []) end.
+
+Fixpoint fpoll (f : ffut) (w : nat) : ffut * ipres * list event :=
+  match f with
+  | FFLeaf id k out done =>
+      if done then (f, IReady out, [EvInitDone id w])
+      else match k with
+           | O => (FFLeaf id O out true, IReady out, [EvInit id w false])
+           | S k' => (FFLeaf id k' out false, IPending, [EvInit id w true])
+           end
+  | FFReady None => (f, IPanic, [])                              (* "Ready can not be polled twice." *)
+  | FFReady (Some r) => (FFReady None, IReady r, [])
+  | FFAnd fa fb a b =>
+      (* if this.a.is_none() { if let Poll::Ready(service) = this.fut_a.poll(cx)? { *this.a = Some(service); } }
+         if this.b.is_none() { ... fut_b ... }
+         if this.a.is_some() && this.b.is_some() { Ready(Ok(AndThenService::new(a.take().unwrap(), b.take().unwrap()))) }
+         else { Pending } *)
+      let '(fa', a', ra, la) :=
+        match a with
+        | Some _ => (fa, a, None, [])
+        | None => let '(fa', r, l) := fpoll fa w in
+                  match r with
+                  | IReady (IOk s) => (fa', Some s, None, l)
+                  | IReady (IErr e) => (fa', None, Some (IReady (IErr e)), l)
+                  | IPanic => (fa', None, Some IPanic, l)
+                  | IPending => (fa', None, None, l)
+                  end
+        end in
+      match ra with
+      | Some r => (FFAnd fa' fb a' b, r, la)
+      | None =>
+          let '(fb', b', rb, lb) :=
+            match b with
+            | Some _ => (fb, b, None, [])
+            | None => let '(fb', r, l) := fpoll fb w in
+                      match r with
+                      | IReady (IOk s) => (fb', Some s, None, l)
+                      | IReady (IErr e) => (fb', None, Some (IReady (IErr e)), l)
+                      | IPanic => (fb', None, Some IPanic, l)
+                      | IPending => (fb', None, None, l)
+                      end
+            end in
+          match rb with
+          | Some r => (FFAnd fa' fb' a' b', r, la ++ lb)
+          | None =>
+              match a', b' with
+              | Some sa, Some sb => (FFAnd fa' fb' None None, IReady (IOk (AndThen sa sb)), la ++ lb)
+              | _, _ => (FFAnd fa' fb' a' b', IPending, la ++ lb)
+              end
+          end
+      end
+  | FFMapSvc sw st fut =>
+      let '(fut', r, l) := fpoll fut w in
+      match r with
+      | IReady (IOk s) =>
+          match st with
+          | OptNone => (FFMapSvc sw st fut', IPanic, l)           (* None.unwrap() *)
+          | OptSome => (FFMapSvc sw OptNone fut', IReady (IOk (sw_app sw s)), l)
+          | NoOpt => (FFMapSvc sw NoOpt fut', IReady (IOk (sw_app sw s)), l)
+          end
+      | _ => (FFMapSvc sw st fut', r, l)
+      end
+  | FFMapInitErr k m fut =>
+      let '(fut', r, l) := fpoll fut w in
+      match r with
+      | IReady ir => let '(ir', lm) := map_ierr k m ir in (FFMapInitErr k m fut', IReady ir', l ++ lm)
+      | _ => (FFMapInitErr k m fut', r, l)
+      end
+  | FFBox fut done =>
+      if done then (f, IPanic, [])                               (* `async fn` resumed after completion *)
+      else
+        let '(fut', r, l) := fpoll fut w in
+        match r with
+        | IReady (IOk s) => (FFBox fut' true, IReady (IOk (Wrap WBoxed s)), l)
+        | IReady (IErr e) => (FFBox fut' true, r, l)
+        | _ => (FFBox fut' false, r, l)
+        end
+  | FFTrA fut kt kev =>
+      (* let srv = ready!(fut.poll(cx))?; let fut = this.store.0.new_transform(srv);
+         this.state.set(B { fut }); self.poll(cx) *)
+      let '(fut', r, l) := fpoll fut w in
+      match r with
+      | IReady (IOk s) =>
+          let '(ft', r2, l2) := fpoll (kt s) w in
+          (FFTrB ft', r2, l ++ kev s ++ l2)
+      | _ => (FFTrA fut' kt kev, r, l)
+      end
+  | FFTrB fut => let '(fut', r, l) := fpoll fut w in (FFTrB fut', r, l)
+  | FFCfgA fut cfg kc kev =>
+      (* A: let svc = ready!(fut.poll(cx))?; state = B { svc }; self.poll(cx)
+         B: ready!(svc.poll_ready(cx))?; let fut = f(this.cfg.take().unwrap(), svc); state = C { fut }; self.poll(cx)
+         C: fut.poll(cx) *)
+      let '(fut', r, l) := fpoll fut w in
+      match r with
+      | IReady (IOk s) =>
+          let '(s', rr, lr) := poll_ready s w in
+          match rr with
+          | RPending => (FFCfgB s' cfg kc kev, IPending, l ++ lr)
+          | RErr e => (FFCfgB s' cfg kc kev, IReady (IErr e), l ++ lr)       (* From<Error> for InitError *)
+          | ROk =>
+              match cfg with
+              | None => (FFCfgB s' cfg kc kev, IPanic, l ++ lr)
+              | Some c =>
+                  let '(fc', r3, l3) := fpoll (kc c s') w in
+                  (FFCfgC fc', r3, l ++ lr ++ kev c s' ++ l3)
+              end
+          end
+      | _ => (FFCfgA fut' cfg kc kev, r, l)
+      end
+  | FFCfgB s cfg kc kev =>
+      let '(s', rr, lr) := poll_ready s w in
+      match rr with
+      | RPending => (FFCfgB s' cfg kc kev, IPending, lr)
+      | RErr e => (FFCfgB s' cfg kc kev, IReady (IErr e), lr)
+      | ROk =>
+          match cfg with
+          | None => (FFCfgB s' cfg kc kev, IPanic, lr)
+          | Some c =>
+              let '(fc', r3, l3) := fpoll (kc c s') w in
+              (FFCfgC fc', r3, lr ++ kev c s' ++ l3)
+          end
+      end
+  | FFCfgC fut => let '(fut', r, l) := fpoll fut w in (FFCfgC fut', r, l)
+  end.
+
+(* ---- ServiceFactory::new_service : events of the call itself, and the future ---- *)
+Definition eff_cfg (k : lkind) (c : cfgv) : cfgv := match k with LFnFactory => None | _ => c end.
+Definition map_cfg (m : mapper) (c : cfgv) : cfgv := match c with Some z => Some (app_m m z) | None => None end.
+
+Definition tr_out (t : tspec) (s : sexpr) : ires :=
+  match t_fail t with Some e => IErr e | None => IOk (Wrap WBoxed (ApplyFn (t_wf t) s)) end.
+(* Transform::new_transform of the harness transform (through Rc and/or map_init_err if asked) *)
+Definition tr_fut (t : tspec) (s : sexpr) : ffut :=
+  let base := FFLeaf (t_id t) (t_k t) (tr_out t s) false in
+  match t_mie t with Some m => FFMapInitErr KTInit m base | None => base end.
+
+Fixpoint new_evs (f : fexpr) (c : cfgv) : list event :=
+  match f with
+  | FLeafF id k _ => [EvNew id (eff_cfg k c)]
+  | FFnService _ _ => []
+  | FAndThen a b => new_evs a c ++ new_evs b c
+  | FMapSvc _ a => new_evs a c
+  | FMapInitErr _ a => new_evs a c
+  | FMapConfig m a => match c with Some z => [EvMap KCfg m z] | None => [] end ++ new_evs a (map_cfg m c)
+  | FUnitConfig a => new_evs a None
+  | FApplyCfg _ cs => [EvCfgFn (c_id cs) c]
+  | FApplyCfgFactory a _ => new_evs a None
+  | FApplyTransform _ a => new_evs a c
+  | FWrap _ a => new_evs a c
+  end.
+
+Definition sw_optst (sw : svcwrap) : optst := match sw with SWMapErr _ => NoOpt | _ => OptSome end.
+
+Fixpoint new_fut (f : fexpr) (c : cfgv) : ffut :=
+  match f with
+  | FLeafF id k beh => FFLeaf id (fst (beh (eff_cfg k c))) (snd (beh (eff_cfg k c))) false
+  | FFnService id beh => FFReady (Some (IOk (FnSvc id beh)))
+  | FAndThen a b => FFAnd (new_fut a c) (new_fut b c) None None
+  | FMapSvc sw a => FFMapSvc sw (sw_optst sw) (new_fut a c)
+  | FMapInitErr m a => FFMapInitErr KInit m (new_fut a c)
+  | FMapConfig m a => new_fut a (map_cfg m c)
+  | FUnitConfig a => new_fut a None
+  | FApplyCfg s cs => FFLeaf (c_id cs) (c_k cs) (cfg_out cs c s) false
+  | FApplyCfgFactory a cs =>
+      FFCfgA (new_fut a None) (Some c)
+             (fun c' s => FFLeaf (c_id cs) (c_k cs) (cfg_out cs c' s) false)
+             (fun c' _ => [EvCfgFn (c_id cs) c'])
+  | FApplyTransform t a => FFTrA (new_fut a c) (tr_fut t) (fun _ => [EvNewT (t_id t)])
+  | FWrap FWBoxed a => FFBox (new_fut a c) false
+  | FWrap _ a => new_fut a c
+  end.
+
+(* ---- executor ---- *)
+Fixpoint fdrive (n : nat) (w : nat) (f : ffut) : ipres * nat * list event :=
+  match n with
+  | O => (IPending, O, [])
+  | S n' =>
+      let '(f', r, l) := fpoll f w in
+      match r with
+      | IPending => let '(r2, c, l2) := fdrive n' (S w) f' in (r2, S c, l ++ l2)
+      | _ => (r, 1%nat, l)
+      end
+  end.
+
+Definition run_new (n : nat) (w : nat) (f : fexpr) (c : cfgv) : ipres * nat * list event :=
+  let '(r, k, l) := fdrive n w (new_fut f c) in (r, k, new_evs f c ++ l).
+
+Fixpoint fpolls (n w : nat) (f : ffut) : list (nat * ipres * list event) :=
+  match n with
+  | O => []
+  | S n' =>
+      let '(f', r, l) := fpoll f w in
+      (w, r, l) :: match r with IPending => fpolls n' (S w) f' | _ => [] end
+  end.
+
+(* a factory case: new_service(cfg), drive, then the client ops on the service that was built *)
+Inductive fobs := FObs (r : ipres) (polls : nat) (l : list event) (rest : list obs).
+Definition run_fac (n : nat) (f : fexpr) (c : cfgv) (ops : list op) : fobs :=
+  let '(r, k, l) := run_new n O f c in
+  FObs r k l match r with IReady (IOk s) => run_ops n s k ops | _ => [] end.
+
+(* ---- reference (C11): how many Pending rounds, and what comes out ---- *)
+(* sum of the lengths of the unread readiness scripts: bounds the rounds of the readiness wait *)
+Fixpoint script_len (e : sexpr) : nat :=
+  match e with
+  | Leaf _ rs _ => length rs
+  | FnSvc _ _ => O
+  | AndThen a b => (script_len a + script_len b)%nat
+  | Map _ a | MapErr _ a | ApplyFn _ a | Wrap _ a => script_len a
+  end.
+
+(* poll_ready until it is not Pending: rounds of Pending, final answer, final service state *)
+Fixpoint wait_ready (n : nat) (e : sexpr) : nat * rans * sexpr :=
+  match n with
+  | O => (O, RPending, e)
+  | S n' =>
+      let '(e', r, _) := poll_ready e O in
+      match r with
+      | RPending => let '(k, r2, e2) := wait_ready n' e' in (S k, r2, e2)
+      | _ => (O, r, e')
+      end
+  end.
+
+Definition fjoin (x y : nat * ires) : nat * ires :=
+  let '(ka, ra) := x in
+  let '(kb, rb) := y in
+  match ra, rb with
+  | IOk sa, IOk sb => (Nat.max ka kb, IOk (AndThen sa sb))
+  | IErr e, IOk _ => (ka, IErr e)
+  | IOk _, IErr e => (kb, IErr e)
+  | IErr ea, IErr eb => if (ka <=? kb)%nat then (ka, IErr ea) else (kb, IErr eb)   (* poll round, then position *)
+  end.
+
+Definition imap (g : sexpr -> sexpr) (r : ires) : ires := match r with IOk s => IOk (g s) | IErr e => IErr e end.
+Definition imap_err (m : mapper) (r : ires) : ires := match r with IOk s => IOk s | IErr e => IErr (app_m m e) end.
+
+Fixpoint fsem (f : fexpr) (c : cfgv) : nat * ires :=
+  match f with
+  | FLeafF _ k beh => beh (eff_cfg k c)
+  | FFnService id beh => (O, IOk (FnSvc id beh))
+  | FAndThen a b => fjoin (fsem a c) (fsem b c)
+  | FMapSvc sw a => let '(k, r) := fsem a c in (k, imap (sw_app sw) r)
+  | FMapInitErr m a => let '(k, r) := fsem a c in (k, imap_err m r)
+  | FMapConfig m a => fsem a (map_cfg m c)
+  | FUnitConfig a => fsem a None
+  | FApplyCfg s cs => (c_k cs, cfg_out cs c s)
+  | FApplyCfgFactory a cs =>
+      (* create, wait ready, configure *)
+      let '(ka, ra) := fsem a None in
+      match ra with
+      | IErr e => (ka, IErr e)
+      | IOk s =>
+          let '(kr, rr, s') := wait_ready (S (script_len s)) s in
+          match rr with
+          | RErr e => ((ka + kr)%nat, IErr e)
+          | _ => ((ka + kr + c_k cs)%nat, cfg_out cs c s')
+          end
+      end
+  | FApplyTransform t a =>
+      let '(ka, ra) := fsem a c in
+      match ra with
+      | IErr e => (ka, IErr e)
+      | IOk s => ((ka + t_k t)%nat,
+                  match t_mie t with Some m => imap_err m (tr_out t s) | None => tr_out t s end)
+      end
+  | FWrap FWBoxed a => let '(k, r) := fsem a c in (k, imap (Wrap WBoxed) r)
+  | FWrap _ a => fsem a c
+  end.
+
+(* the leaf factories of a factory tree with the config each is built with, in creation order *)
+Fixpoint fleaves (f : fexpr) (c : cfgv) : list (nat * cfgv) :=
+  match f with
+  | FLeafF id k _ => [(id, eff_cfg k c)]
+  | FFnService _ _ => []
+  | FAndThen a b => fleaves a c ++ fleaves b c
+  | FMapSvc _ a | FMapInitErr _ a | FApplyTransform _ a | FWrap _ a => fleaves a c
+  | FMapConfig m a => fleaves a (map_cfg m c)
+  | FUnitConfig a => fleaves a None
+  | FApplyCfg _ _ => []
+  | FApplyCfgFactory a _ => fleaves a None
+  end.
+
+Definition new_events (l : list event) : list (nat * cfgv) :=
+  flat_map (fun ev => match ev with EvNew id c => [(id, c)] | _ => [] end) l.
+
+(* C12 at factory level: what one poll (waker w) of a factory future may log, and why it may pend *)
+Definition fokev (w : nat) (ev : event) : Prop :=
+  match ev with
+  | EvInit _ w' _ => w' = w
+  | EvReady _ w' _ => w' = w
+  | EvMap _ _ _ | EvNewT _ | EvCfgFn _ _ => True
+  | _ => False
+  end.
+Definition has_pending (w : nat) (l : list event) : Prop :=
+  exists id, In (EvInit id w true) l \/ In (EvReady id w RPending) l.
+Definition fgood_poll (x : nat * ipres * list event) : Prop :=
+  let '(w, r, l) := x in
+  r <> IPanic /\ Forall (fokev w) l /\ (r = IPending -> has_pending w l).
+
+(* ---- the family of scripted leaf-factory behaviours used by the correspondence run ---- *)
+Record fbehspec := { f_d : Z; f_dm : Z; f_ec : Z; f_rs : list rans; f_b : behspec }.
+Definition fbeh_of (id : nat) (fb : fbehspec) (c : cfgv) : nat * ires :=
+  let z := cfg_z c in
+  (Z.to_nat ((f_d fb + f_dm fb * z) mod 3),
+   if (0 <=? f_ec fb) && (z mod 3 =? f_ec fb) then IErr (200 + z)
+   else IOk (Leaf id (f_rs fb) (fun req => beh_of (f_b fb) (req + z)))).
